@@ -182,11 +182,16 @@ def o_file(a):
         roi = import_roi(cfg)
         src = list(roi.values())[0]
         band = a.get('band')          # an energy window of the simulation other than the default: the closure must hold wherever the response is defined
-        simdrive.simulate(cfg, path, du_id=a['du'], seed=a['seed'], roi_model=roi, duration=a['duration'], **(dict(emin=band[0], emax=band[1]) if band else {}))
+        if a.get('pd') is not None:
+            from ixpeobssim.srcmodel.polarization import constant
+            src.polarization_degree = constant(a['pd'])
+        irf = a.get('irf')            # a response set other than the default: the file records it (IRFNAME) and the analysis, left to its defaults, uses that one
+        simdrive.simulate(cfg, path, du_id=a['du'], seed=a['seed'], roi_model=roi, duration=a['duration'], **(dict(emin=band[0], emax=band[1]) if band else {}),
+                          **(dict(irfname=irf) if irf else {}))
         with fits.open(path) as h:
             ev = h['EVENTS'].data
             phi, q, u = (numpy.array(ev[k], dtype=float) for k in ('PHI', 'Q', 'U'))
-        o = xpbin(**PARSER.parse_args([path, '--overwrite', 'True', '--algorithm', 'PCUBE', '--ebins', '1', '--irfname', 'ixpe:obssim20240101:v13'] + (
+        o = xpbin(**PARSER.parse_args([path, '--overwrite', 'True', '--algorithm', 'PCUBE', '--ebins', '1'] + ([] if irf else ['--irfname', 'ixpe:obssim20240101:v13']) + (
             ['--mc', 'True', '--emin', repr(band[0]), '--emax', repr(band[1])] if band else [])).__dict__)[0]
         with fits.open(o) as h:
             r = h[1].data
@@ -295,6 +300,8 @@ def explore(chk, budget=1):
     run_oracle(chk, 'periodic', dict(start=float(g.choice([0., 1.2e8])), T=20000., du=int(g.integers(1, 4)), seed=int(g.integers(1, 10 ** 6))))
     run_oracle(chk, 'multi', dict(T=3000., du=int(g.integers(1, 4)), seed=int(g.integers(1, 10 ** 6))))
     run_oracle(chk, 'file', dict(du=int(g.integers(1, 4)), seed=int(g.integers(1, 10 ** 6)), duration=1500. if quick else 6000.))
+    for irf in (names[1:2] if quick else names[1:]):
+        run_oracle(chk, 'file', dict(du=int(g.integers(1, 4)), seed=int(g.integers(1, 10 ** 6)), duration=3000. if quick else 6000., irf=irf, pd=float(g.uniform(0.5, 0.9))))
 
 
 def main(chk):
